@@ -26,8 +26,14 @@ LEVEL_TEXT = ("Proof: in the model of the gridding / rate-lookup / accumulation 
               "over the reals, simulation-free distributions are equal as multisets / sorted lists / in every empirical "
               "quantile, consistent re-indexing of cells and rates leaves every sum over bins unchanged, and with the "
               "uniform stream fixed the simulated test outcome is a function of the count arrays only, hence equal in any "
-              "arithmetic (bit for bit). Tied to the code by running all 18 public evaluations on permuted inputs every run.")
-LEVEL_NOTE = ("The model takes the (cell, bin) index of each event as given (region lookup is property C01/C02) and the "
+              "arithmetic (bit for bit). For regions that locate every event by its own scan of half-open boxes (quadtree) "
+              "the located cells of permuted events are a permuted list and no event's cell depends on the events stored "
+              "before it, tile edges and corners included; a session of in-place re-orderings of the rows of ONE catalog "
+              "object shows every evaluation of the session the same gridded arrays. "
+              "Tied to the code by running all 18 public evaluations on permuted inputs every run: new catalog objects, "
+              "shared region / forecast objects, and one catalog object re-ordered in place between rounds.")
+LEVEL_NOTE = ("The model takes the (cell, bin) index of each event as given for Cartesian regions (region lookup is property "
+              "C01/C02), for quadtree regions it locates the events itself from the region's boxes (first hit, no memory) and takes the "
               "random stream as an input; scipy's poisson/nbinom/t/norm distribution functions and rankdata are represented "
               "by their specification or left as parameters; float rounding of log/sum is not modelled (results are "
               "compared to 1e-9 relative, seeded simulations bit for bit).")
@@ -40,7 +46,9 @@ THEOREMS = ["PermInv.counts_perm", "PermInv.counts_spec", "PermInv.target_rates_
             "PermInv.mean_rates_perm_within", "PermInv.distribution_perm_catalogs",
             "PermInv.distribution_sorted_perm_catalogs", "PermInv.distribution_perm_within", "PermInv.stat_perm_cells",
             "PermInv.stat_perm_cells_index", "PermInv.stat_perm_cells_events", "PermInv.counts_relabel",
-            "PermInv.seeded_bit_identical", "PermInv.seeded_bit_identical_binary"]
+            "PermInv.seeded_bit_identical", "PermInv.seeded_bit_identical_binary",
+            "PermInv.lookup_perm", "PermInv.lookup_no_memory", "PermInv.lookup_first_hit", "PermInv.lookup_edge",
+            "PermInv.inplace_reorder_counts", "PermInv.inplace_session", "PermInv.inplace_session_lookup"]
 TRUSTED = ["Lean 4.33 kernel", "axioms: propext, Classical.choice, Quot.sound at most",
            "the (cell, bin) index the region lookup assigns to an event is an input of the model (events are generated "
            "strictly inside cells and bins; the lookup itself is properties C01/C02)",
@@ -48,12 +56,24 @@ TRUSTED = ["Lean 4.33 kernel", "axioms: propext, Classical.choice, Quot.sound at
            "scipy.stats.rankdata(method='average') is modelled by #less + (#equal + 1)/2",
            "numpy.random streams: the model takes the uniform numbers as input; the harness fixes the seed",
            "Float log/sum rounding is not modelled: Lean Float results are compared with numpy to 1e-9 relative",
+           "quadtree tile boxes are read from region.bounds (their values are property C17); mercantile gives the generator "
+           "the same edge coordinates",
            "harness/c20.py generators, permutation plumbing and comparison; driver parsing (Proto.lean, Drive/C20.lean)"]
 RULE = ("random regions of 1..40 cells (random subsets of a lattice, stored in random order; rectangles, single rows/columns, "
         "single cell), 1..6 magnitude bins of uniform width, forecasts with positive rates (some with zero-rate cells, "
         "some with equal rates), observed catalogs of 0..200 events with many events per cell and per bin, catalog "
         "forecasts of 1..40 synthetic catalogs including empty ones; per case 3 (quick) or 4-5 (thorough) random "
         "permutations each of the observed events, the synthetic catalogs and the cells (always: reversal, time-sorted events, empty catalogs first, lexicographically sorted cells); 18 evaluations per variant. "
+        "About a quarter of the cases use a QUADTREE region (from_single_resolution zoom 1-3, from_quadkeys with mixed depths, "
+        "partial coverage and shuffled tiles, from_catalog built from the observed events themselves) with ~40% of the events "
+        "exactly on a tile's west / south edge or south-west corner (= east / north edge of the neighbour), each with companion "
+        "events inside the tiles west / south / south-west of it; the event orders then include one in which every edge event is "
+        "stored directly after a companion and one in which it is stored directly before it; cells are re-ordered through "
+        "from_quadkeys. Every second event variant re-uses the region and forecast OBJECTS of the base input. Every case ends "
+        "with a session on ONE catalog object and ONE catalog-forecast object: all evaluations, then the stored rows are "
+        "re-ordered in place (catalog.catalog[:] = catalog.catalog[perm], .sort(order='origin_time' / 'magnitude'), "
+        "Generator.shuffle, re-assignment through the setter), all evaluations again on the same objects (2 re-orderings quick, "
+        "3 thorough), finally the synthetic catalogs are re-ordered in place (the list and the rows of each). "
         "A case is non-trivial when some permutation changes the stored order of distinguishable items (>= 2 distinct "
         "events / catalogs / cells); distinct by generated input")
 
@@ -69,10 +89,82 @@ def _r(x):
     return round(float(x), 10)
 
 
+# quadtree tiles for the generator (mercantile is the third-party tile library pyCSEP itself takes the bounds from;
+# no csep code is used here).  A tile is named by its quadkey; its box is half-open [west, east) x [south, north).
+def _qt_box(qk):
+    import mercantile
+    b = mercantile.bounds(mercantile.quadkey_to_tile(qk))
+    return (b.west, b.south, b.east, b.north)
+
+
+def _qt_single(zoom):
+    out = []
+
+    def rec(q):
+        if len(q) < zoom:
+            for d in "0123":
+                rec(q + d)
+        else:
+            out.append(q)
+    for d in "0123":
+        rec(d)
+    return out
+
+
+def _qt_refine(pts, threshold, zoom):
+    """the leaves QuadtreeGrid2D.from_catalog is documented to give: a tile is split while it holds more than
+    `threshold` points and is shallower than `zoom` (children in the order 0,1,2,3, depth first)"""
+    out = []
+
+    def rec(q):
+        w, s_, e, n = _qt_box(q)
+        cnt = sum(1 for lon, lat in pts if w <= lon < e and s_ <= lat < n)
+        if cnt > threshold and len(q) < zoom:
+            for d in "0123":
+                rec(q + d)
+        else:
+            out.append(q)
+    for d in "0123":
+        rec(d)
+    return out
+
+
+def _find_box(boxes, lon, lat):
+    """index of the first half-open box holding the point (stateless, one point at a time), None if there is none"""
+    for i, (w, s_, e, n) in enumerate(boxes):
+        if w <= lon < e and s_ <= lat < n:
+            return i
+    return None
+
+
+def _perm_list(rng, n, nperm):
+    out = []
+    for _ in range(nperm):
+        p = list(range(n))
+        rng.shuffle(p)
+        out.append(p)
+    if n >= 2:
+        out[0] = list(range(n))[::-1]                # reversal always included
+    return out
+
+
+def _inplace_steps(rng, n_perms, big):
+    """the session on ONE catalog object: how its stored rows are re-ordered between two rounds of evaluations"""
+    hows = ["slice-assign", "sort-time", "setter", "shuffle", "sort-magnitude"]
+    steps = [["slice-assign", rng.randrange(n_perms)], [rng.choice(hows), rng.randrange(n_perms)]]
+    if big:
+        steps.append([rng.choice(hows), rng.randrange(n_perms)])
+    rng.shuffle(steps)
+    return steps
+
+
 def gen_input(rng, tier, force=None):
     """one explicit, JSON-able input: region, magnitudes, two forecasts, observed events, synthetic catalogs, permutations"""
     big = tier == "thorough"
-    shape = force or rng.choice(["subset", "subset", "subset", "rect", "row", "col", "single", "subset-large"])
+    shape = force or rng.choice(["subset", "subset", "subset", "rect", "row", "col", "single", "subset-large",
+                                 "qt-single", "qt-quadkeys", "qt-catalog"])
+    if shape.startswith("qt-"):
+        return _gen_input_qt(rng, tier, shape)
     dh = rng.choice([0.1, 0.1, 0.25, 0.5, 1.0])
     x0 = rng.choice([0.0, -120.0, 10.0, 170.0, -5.0])
     y0 = rng.choice([0.0, 30.0, -40.0, 35.5])
@@ -98,7 +190,32 @@ def gen_input(rng, tier, force=None):
     dm = rng.choice([0.1, 0.5, 1.0])
     m0 = rng.choice([2.5, 4.0, 4.95, 5.0])
     mags = [_r(m0 + k * dm) for k in range(nb)]
+    kind1, kind2, rates1, rates2 = _gen_rates(rng, nc, nb)
 
+    def event(k, c, b):
+        lon = origins[c][0] + dh * rng.uniform(0.25, 0.75)
+        lat = origins[c][1] + dh * rng.uniform(0.25, 0.75)
+        mag = mags[b] + dm * rng.uniform(0.25, 0.75)
+        return [k, rng.randrange(10 ** 9, 2 * 10 ** 12), lat, lon, rng.uniform(0, 30), mag, c, b]
+    events, cats = _gen_catalogs(rng, big, nc, nb, rates1, kind1, event)
+    nperm = rng.choice([4, 5]) if big else 3
+    ev_perms = _perm_list(rng, len(events), nperm)
+    if len(events) >= 2:
+        ev_perms[1] = sorted(range(len(events)), key=lambda i: events[i][1])      # time-sorted storage
+    n_cat = len(cats)
+    cat_perms = _perm_list(rng, n_cat, nperm)
+    if n_cat >= 2:
+        cat_perms[1] = sorted(range(n_cat), key=lambda i: len(cats[i]))            # empty catalogs first
+    cell_perms = _perm_list(rng, nc, nperm)
+    if nc >= 2:
+        cell_perms[1] = sorted(range(nc), key=lambda i: (origins[i][0], origins[i][1]))   # lexicographically sorted cells
+    return dict(shape=shape, dh=dh, origins=origins, mags=mags, dm=dm, rates1=rates1, rates2=rates2, kinds=[kind1, kind2],
+                events=events, cats=cats, ev_perms=ev_perms, cat_perms=cat_perms, cell_perms=cell_perms,
+                inplace=_inplace_steps(rng, nperm, big),
+                seed=rng.randrange(0, 2 ** 31), nsim=rng.choice([5, 10, 20]), variance_factor=rng.choice([1.5, 3.0, 10.0]))
+
+
+def _gen_rates(rng, nc, nb, allow_zeros=True):
     def rates(kind):
         if kind == "equal":
             v = rng.choice([0.01, 0.5, 3.0])
@@ -113,16 +230,12 @@ def gen_input(rng, tier, force=None):
             if all(v == 0.0 for row in out for v in row):
                 out[0][0] = 1.0
         return out
-    kind1 = rng.choice(["pos", "pos", "pos", "zeros", "equal"])
+    kind1 = rng.choice(["pos", "pos", "pos", "zeros", "equal"] if allow_zeros else ["pos", "pos", "equal"])
     kind2 = rng.choice(["pos", "pos", "equal"]) if kind1 != "equal" else "pos"
-    rates1, rates2 = rates(kind1), rates(kind2)
+    return kind1, kind2, rates(kind1), rates(kind2)
 
-    def event(k, c, b):
-        lon = origins[c][0] + dh * rng.uniform(0.25, 0.75)
-        lat = origins[c][1] + dh * rng.uniform(0.25, 0.75)
-        mag = mags[b] + dm * rng.uniform(0.25, 0.75)
-        return [k, rng.randrange(10 ** 9, 2 * 10 ** 12), lat, lon, rng.uniform(0, 30), mag, c, b]
 
+def _gen_catalogs(rng, big, nc, nb, rates1, kind1, event, n_obs=None):
     def catalog(n, avoid_zero):
         hot = [rng.randrange(nc) for _ in range(rng.randint(1, 3))]
         evs = []
@@ -137,7 +250,8 @@ def gen_input(rng, tier, force=None):
             evs.append(event(k, c, b))
         return evs
     nmax = 200 if big else 120
-    n_obs = rng.choice([0, 1, 2, 3, rng.randint(4, 30), rng.randint(4, 30), rng.randint(30, nmax), rng.randint(10, nmax)])
+    if n_obs is None:
+        n_obs = rng.choice([0, 1, 2, 3, rng.randint(4, 30), rng.randint(4, 30), rng.randint(30, nmax), rng.randint(10, nmax)])
     # events in zero-rate bins are tolerated by the Poisson tests (-inf); keep them rare
     avoid_zero = not (kind1 == "zeros" and rng.random() < 0.3)
     events = catalog(n_obs, avoid_zero)
@@ -146,34 +260,172 @@ def gen_input(rng, tier, force=None):
     for _ in range(n_cat):
         n = rng.choice([0, 0, 1, 2, rng.randint(3, 20), rng.randint(3, 20), rng.randint(20, 60)])
         cats.append(catalog(n, False))
-    nperm = rng.choice([4, 5]) if big else 3
+    return events, cats
 
-    def perms(n):
-        out = []
-        for _ in range(nperm):
-            p = list(range(n))
-            rng.shuffle(p)
-            out.append(p)
-        if n >= 2:
-            out[0] = list(range(n))[::-1]                # reversal always included
-        return out
-    ev_perms = perms(len(events))
-    if len(events) >= 2:
-        ev_perms[1] = sorted(range(len(events)), key=lambda i: events[i][1])      # time-sorted storage
-    cat_perms = [p for p in perms(n_cat)]
+
+def _gen_input_qt(rng, tier, shape):
+    """a QUADTREE region (built by from_single_resolution / from_quadkeys / from_catalog) with observed and synthetic
+    events inside tiles, exactly on tile edges (west / south edge of their tile = east / north edge of the neighbour) and
+    on tile corners; every edge event gets companions in the tiles west / south / south-west of it, and the storage
+    orders include some in which the edge event directly follows such a companion and some in which it does not."""
+    big = tier == "thorough"
+    ctor = shape[3:]
+    nb = rng.choice([1, 2, 3, 3, 4])
+    dm = rng.choice([0.1, 0.5, 1.0])
+    m0 = rng.choice([2.5, 4.0, 4.95, 5.0])
+    mags = [_r(m0 + k * dm) for k in range(nb)]
+    qt = dict(ctor=ctor)
+    if ctor == "single":
+        qt["zoom"] = rng.choice([1, 2, 2, 3] if big else [1, 2, 2, 2, 3])
+        keys = _qt_single(qt["zoom"])
+    elif ctor == "quadkeys":
+        keys = ["0", "1", "2", "3"]
+        for _ in range(rng.randint(0, 7)):
+            cand = [q for q in keys if len(q) < 4]
+            if not cand or len(keys) > 36:
+                break
+            q = rng.choice(cand)
+            i = keys.index(q)
+            keys[i:i + 1] = [q + d for d in "0123"]
+        if rng.random() < 0.3 and len(keys) > 4:
+            for q in rng.sample(keys, rng.randint(1, len(keys) // 3)):          # partial coverage of the globe
+                keys.remove(q)
+        rng.shuffle(keys)                                                         # arbitrary storage order of the tiles
+    else:
+        qt["threshold"] = rng.choice([1, 2, 4, 8])
+        qt["zoom"] = rng.choice([2, 3, 3, 4])
+        centres = [(rng.uniform(-170, 170), rng.uniform(-75, 75)) for _ in range(rng.randint(1, 3))]
+        seeds = []
+        for _ in range(rng.choice([0, 2, 5, 12, 30])):
+            cx, cy = rng.choice(centres)
+            seeds.append((max(-179.0, min(179.0, cx + rng.gauss(0, 15))), max(-84.0, min(84.0, cy + rng.gauss(0, 10)))))
+        keys = _qt_refine(seeds, qt["threshold"], qt["zoom"])
+    boxes = [_qt_box(q) for q in keys]
+    nc = len(keys)
+    # from_catalog: the tiles depend on the events, which are placed before the rates exist -> no zero-rate logic there
+    kind1, kind2, rates1, rates2 = _gen_rates(rng, nc, nb, allow_zeros=ctor != "catalog")
+
+    def place(c, how):
+        w, s_, e, n = boxes[c]
+        lon = w if how in ("W", "SW") else w + (e - w) * rng.uniform(0.1, 0.9)
+        lat = s_ if how in ("S", "SW") else s_ + (n - s_) * rng.uniform(0.1, 0.9)
+        return lon, lat
+
+    def event(k, c, b, how=None):
+        how = how or rng.choice(["in", "in", "in", "in", "W", "S", "SW"])
+        lon, lat = place(c, how)
+        mag = mags[b] + dm * rng.uniform(0.25, 0.75)
+        return [k, rng.randrange(10 ** 9, 2 * 10 ** 12), lat, lon, rng.uniform(0, 30), mag, c, b, how]
+    nmax = 80 if big else 50
+    n_obs = rng.choice([0, 1, 2, 3, rng.randint(4, 20), rng.randint(4, 20), rng.randint(10, nmax)])
+    events, cats = _gen_catalogs(rng, big, nc, nb, rates1, kind1, event, n_obs=n_obs)
+    cats = cats[:12]
+    # companions: an event strictly inside the tile that lies west / south / south-west of an edge event
+    adjacent = []
+    for e in list(events):
+        how = e[8]
+        if how == "in" or rng.random() < 0.15:
+            continue
+        w, s_, east, north = boxes[e[6]]
+        dx, dy = (east - w) * rng.uniform(0.02, 0.2), (north - s_) * rng.uniform(0.02, 0.2)
+        probes = dict(W=[(e[3] - dx, e[2] + (dy if how == "SW" else 0.0))], S=[(e[3] + (dx if how == "SW" else 0.0), e[2] - dy)],
+                      SW=[(e[3] - dx, e[2] - dy)])
+        dirs = dict(W=["W"], S=["S"], SW=["W", "S", "SW"])[how]
+        for d in dirs:
+            lon, lat = probes[d][0]
+            c = _find_box(boxes, lon, lat)
+            if c is None:
+                continue
+            ok_bins = [b for b in range(nb) if rates1[c][b] > 0.0] or list(range(nb))
+            b = rng.choice(ok_bins)
+            k = len(events)
+            events.append([k, rng.randrange(10 ** 9, 2 * 10 ** 12), lat, lon, rng.uniform(0, 30),
+                           mags[b] + dm * rng.uniform(0.25, 0.75), c, b, "companion"])
+            adjacent.append([k, e[0]])
+    order = list(range(len(events)))
+    rng.shuffle(order)                                  # base storage order: arbitrary
+    renum = {old: new for new, old in enumerate(order)}
+    events = [events[i][:] for i in order]
+    for new, e in enumerate(events):
+        e[0] = new
+    adjacent = [[renum[a], renum[b]] for a, b in adjacent]
+    if ctor == "catalog":
+        # the region is built from the observed events themselves: refine on their coordinates, then re-locate
+        pts = [(e[3], e[2]) for e in events]
+        keys = _qt_refine(pts, qt["threshold"], qt["zoom"])
+        boxes = [_qt_box(q) for q in keys]
+        nc = len(keys)
+        kind1, kind2, rates1, rates2 = _gen_rates(rng, nc, nb, allow_zeros=False)
+        for evs in [events] + cats:
+            for e in evs:
+                e[6] = _find_box(boxes, e[3], e[2])
+    qt["keys"] = keys
+    n = len(events)
+    nperm = 5 if big else 4
+    ev_perms = _perm_list(rng, n, nperm)
+    if n >= 2:
+        ev_perms[1] = sorted(range(n), key=lambda i: events[i][1])
+
+        def adjacency_order():
+            """every edge event stored directly after one of its companions"""
+            comp = {}
+            for a, b in adjacent:
+                comp.setdefault(b, []).append(a)
+            chosen = {b: rng.choice(v) for b, v in comp.items()}
+            used = set(chosen.values())
+            units = [[chosen[i], i] if i in chosen else [i] for i in range(n) if i not in used or i in chosen]
+            # an event that is a companion AND an edge event with its own companion keeps one role (edge event)
+            seen, flat = set(), []
+            rng.shuffle(units)
+            for u in units:
+                for i in u:
+                    if i not in seen:
+                        seen.add(i)
+                        flat.append(i)
+            flat += [i for i in range(n) if i not in seen]
+            return flat
+        ev_perms[2] = adjacency_order()
+        ev_perms[3] = adjacency_order()[::-1]            # ... and directly BEFORE it
+    n_cat = len(cats)
+    cat_perms = _perm_list(rng, n_cat, 3)
     if n_cat >= 2:
-        cat_perms[1] = sorted(range(n_cat), key=lambda i: len(cats[i]))            # empty catalogs first
-    cell_perms = perms(nc)
+        cat_perms[1] = sorted(range(n_cat), key=lambda i: len(cats[i]))
+    cell_perms = _perm_list(rng, nc, 3)
     if nc >= 2:
-        cell_perms[1] = sorted(range(nc), key=lambda i: (origins[i][0], origins[i][1]))   # lexicographically sorted cells
-    return dict(shape=shape, dh=dh, origins=origins, mags=mags, dm=dm, rates1=rates1, rates2=rates2, kinds=[kind1, kind2],
-                events=events, cats=cats, ev_perms=ev_perms, cat_perms=cat_perms, cell_perms=cell_perms,
-                seed=rng.randrange(0, 2 ** 31), nsim=rng.choice([5, 10, 20]), variance_factor=rng.choice([1.5, 3.0, 10.0]))
+        cell_perms[1] = sorted(range(nc), key=lambda i: keys[i])                  # tiles sorted by quadkey
+    return dict(shape=shape, qt=qt, dh=None, origins=[[b[0], b[1]] for b in boxes], mags=mags, dm=dm, rates1=rates1,
+                rates2=rates2, kinds=[kind1, kind2], events=events, cats=cats, adjacent=adjacent, ev_perms=ev_perms,
+                cat_perms=cat_perms, cell_perms=cell_perms, inplace=_inplace_steps(rng, nperm, big),
+                seed=rng.randrange(0, 2 ** 31), nsim=rng.choice([5, 10]), variance_factor=rng.choice([1.5, 3.0, 10.0]))
 
 
 # ----------------------------------------------------------------------------- building pyCSEP objects
-def _objects(inp, ev_perm=None, cat_perm=None, cell_perm=None):
-    from csep.core.regions import CartesianGrid2D
+def _rows(evs):
+    return [(str(e[0]), int(e[1]), float(e[2]), float(e[3]), float(e[4]), float(e[5])) for e in evs]
+
+
+def _region(inp, sigma, identity, events, mags):
+    """the region of a variant: Cartesian cells from their origins, quadtree tiles through the constructor the input
+    names (identity order) or through from_quadkeys on the re-ordered quadkeys (cell permutations)"""
+    from csep.core.regions import CartesianGrid2D, QuadtreeGrid2D
+    from csep.core.catalogs import CSEPCatalog
+    qt = inp.get("qt")
+    if qt is None:
+        origins = numpy.array([inp["origins"][i] for i in sigma], dtype=float)
+        return CartesianGrid2D.from_origins(origins, dh=inp["dh"], magnitudes=mags)
+    if not identity or qt["ctor"] == "quadkeys":
+        return QuadtreeGrid2D.from_quadkeys([qt["keys"][i] for i in sigma], magnitudes=mags)
+    if qt["ctor"] == "single":
+        return QuadtreeGrid2D.from_single_resolution(qt["zoom"], magnitudes=mags)
+    # built from the observed events in THEIR storage order of this variant
+    with contextlib.redirect_stdout(io.StringIO()):
+        return QuadtreeGrid2D.from_catalog(CSEPCatalog(data=_rows(events)), qt["threshold"], zoom=qt["zoom"], magnitudes=mags)
+
+
+def _objects(inp, ev_perm=None, cat_perm=None, cell_perm=None, share=None):
+    """pyCSEP objects of one variant. share: the objects of another variant with the same cell order whose region and
+    forecast OBJECTS are re-used (only the catalogs are new) - state kept on a region or forecast between evaluations of
+    differently ordered catalogs is then exercised"""
     from csep.core.catalogs import CSEPCatalog
     from csep.core.forecasts import GriddedForecast, CatalogForecast
     nc = len(inp["origins"])
@@ -181,27 +433,49 @@ def _objects(inp, ev_perm=None, cat_perm=None, cell_perm=None):
     pi = [0] * nc
     for j, i in enumerate(sigma):
         pi[i] = j                                                               # old cell i is new cell pi[i]
-    origins = numpy.array([inp["origins"][i] for i in sigma], dtype=float)
     mags = numpy.array(inp["mags"], dtype=float)
-    region = CartesianGrid2D.from_origins(origins, dh=inp["dh"], magnitudes=mags)
     events = inp["events"] if ev_perm is None else [inp["events"][i] for i in ev_perm]
     cats = inp["cats"] if cat_perm is None else [inp["cats"][i] for i in cat_perm]
-
-    def mk_cat(evs, cid=None):
-        rows = [(str(e[0]), int(e[1]), float(e[2]), float(e[3]), float(e[4]), float(e[5])) for e in evs]
-        return CSEPCatalog(data=rows, region=region, catalog_id=cid)
     d1 = numpy.array([inp["rates1"][i] for i in sigma], dtype=float)
     d2 = numpy.array([inp["rates2"][i] for i in sigma], dtype=float)
-    f1 = GriddedForecast(data=d1.copy(), region=region, magnitudes=mags, name="f1")
-    f2 = GriddedForecast(data=d2.copy(), region=region, magnitudes=mags, name="f2")
+    keys_ok = True
+    if share is not None and cell_perm is None:
+        region, f1, f2 = share.region, share.f1, share.f2
+    else:
+        region = _region(inp, sigma, cell_perm is None, events, mags)
+        if "qt" in inp:
+            got, want = [str(q) for q in region.quadkeys], [inp["qt"]["keys"][i] for i in sigma]
+            if got != want:
+                # the tiles are not the documented ones (C17's subject) or, for from_catalog, depend on the storage order
+                # of the events (C20's): reported by check_input; rates follow the tiles by quadkey so the run can go on
+                keys_ok = (got, want)
+                row = {q: i for i, q in enumerate(inp["qt"]["keys"])}
+                d1 = numpy.array([inp["rates1"][row.get(q, 0)] for q in got], dtype=float)
+                d2 = numpy.array([inp["rates2"][row.get(q, 0)] for q in got], dtype=float)
+        f1 = GriddedForecast(data=d1.copy(), region=region, magnitudes=mags, name="f1")
+        f2 = GriddedForecast(data=d2.copy(), region=region, magnitudes=mags, name="f2")
+
+    def mk_cat(evs, cid=None):
+        return CSEPCatalog(data=_rows(evs), region=region, catalog_id=cid)
 
     def mk_cf():
         cl = [mk_cat(c, k) for k, c in enumerate(cats)]
         return CatalogForecast(catalogs=cl, region=region, n_cat=len(cl), name="cf")
+    if "qt" in inp:
+        # the cell of every event by a stateless scan of the region's own boxes, one event at a time
+        boxes = [tuple(float(v) for v in b) for b in numpy.asarray(region.bounds)]
+        loc = lambda evs: [_find_box(boxes, float(e[3]), float(e[2])) for e in evs]
+        ev_cells, cat_cells = loc(events), [loc(c) for c in cats]
+        nc_eff = len(boxes)
+    else:
+        boxes = None
+        ev_cells, cat_cells = [pi[e[6]] for e in events], [[pi[e[6]] for e in c] for c in cats]
+        nc_eff = nc
     return SimpleNamespace(region=region, catalog=mk_cat(events), mk_catalog=lambda: mk_cat(events), f1=f1, f2=f2, d1=d1,
-                           d2=d2, mk_cf=mk_cf, sigma=sigma, pi=pi, nc=nc, nb=len(inp["mags"]),
-                           ev_cells=[pi[e[6]] for e in events], ev_bins=[e[7] for e in events],
-                           cat_cells=[[pi[e[6]] for e in c] for c in cats], cat_bins=[[e[7] for e in c] for c in cats])
+                           d2=d2, mk_cf=mk_cf, sigma=sigma, pi=pi, nc=nc_eff, nb=len(inp["mags"]), events=events, cats=cats,
+                           ev_cells=ev_cells, ev_bins=[e[7] for e in events], boxes=boxes, keys_ok=keys_ok,
+                           located=all(c is not None for c in ev_cells) and all(c is not None for cc in cat_cells for c in cc),
+                           cat_cells=cat_cells, cat_bins=[[e[7] for e in c] for c in cats])
 
 
 def _num(x):
@@ -244,7 +518,8 @@ def _binary_safe(o, inp):
     either. Both criteria depend only on multisets, i.e. they are the same for every storage order."""
     smc = numpy.zeros((o.nc, o.nb))
     for c, b in zip(o.ev_cells, o.ev_bins):
-        smc[c, b] += 1
+        if c is not None:
+            smc[c, b] += 1
 
     def ok(active, weights):
         w = numpy.sort(weights[weights > 0])
@@ -397,9 +672,9 @@ def _parts(lists):
     return ";".join(ilist(l) for l in lists)
 
 
-def _impl_counts(o):
+def _impl_counts(o, catalog=None):
     with contextlib.redirect_stdout(io.StringIO()), numpy.errstate(all="ignore"):
-        c = o.mk_catalog()
+        c = catalog if catalog is not None else o.mk_catalog()
         sp = [int(v) for v in c.spatial_counts()]
         mg = [int(v) for v in c.magnitude_counts()]
         smc = c.spatial_magnitude_counts()
@@ -436,10 +711,24 @@ class _Corr:
         self.run, self.case, self.drv, self.todo = run, case, Driver(), []
 
     @_guard
-    def counts(self, o, tag, expect_perm_of=None):
-        impl = _impl_counts(o)
+    def counts(self, o, tag, expect_perm_of=None, catalog=None):
+        impl = _impl_counts(o, catalog)
         i = self.drv.ask(f"c20_counts {o.nc} {o.nb} {ilist(o.ev_cells)} {ilist(o.ev_bins)}")
         self.todo.append(("counts", tag, i, impl, o, expect_perm_of))
+
+    @_guard
+    def locate(self, o, tag, catalog=None):
+        """quadtree regions: the cell index list `region.get_index_of` gives for the stored events, in storage order, is
+        the model's per-event first-hit scan of the half-open boxes (Model/Perm.lean findLocation; no memory)"""
+        cat = catalog if catalog is not None else o.mk_catalog()
+        if cat.event_count == 0:
+            return
+        lons, lats = numpy.array(cat.get_longitudes(), dtype=float), numpy.array(cat.get_latitudes(), dtype=float)
+        impl = [int(v) for v in numpy.atleast_1d(o.region.get_index_of(lons, lats))]
+        b = ";".join(",".join(frac(v) for v in box) for box in o.boxes)
+        pts = ";".join(f"{frac(x)},{frac(y)}" for x, y in zip(lons, lats))
+        i = self.drv.ask(f"c20_locate {b} {pts}")
+        self.todo.append(("locate", tag, i, impl, o, None))
 
     @_guard
     def mean(self, o, tag):
@@ -594,6 +883,10 @@ class _Corr:
                 mv = [] if s == "-" else [int(v) for v in s.split(",")]
                 if mv != impl:
                     self.run.mismatch(case, impl, mv)
+            elif what == "locate":
+                mv = [] if s == "-" else [int(v) for v in s.split(",") if v != "x"]
+                if mv != impl:
+                    self.run.mismatch(case, impl, mv)
         # the model's own outputs across storage orders: equal (events), re-indexed (cells)
         if "orig" in parsed:
             b, ob = parsed["orig"]
@@ -639,49 +932,160 @@ def check_input(run, inp, rng, tag="gen"):
     for n, oc in base.items():
         run.count(f"outcome:{n}:" + ("exc:" + oc["exc"] if "exc" in oc else ("none" if "none" in oc else
                                      ("skipped:" + oc["skipped"] if "skipped" in oc else oc["status"]))))
-    corr.counts(base_o, "orig")
-    corr.mean(base_o, "orig")
-    corr.jointll(base_o, "orig", base)
-    corr.tw(base_o, "orig", base)
-    corr.binary(base_o, "orig", base)
-    corr.normll(base_o, "orig", base)
-    if any(v > 0 for v in base_o.d1.ravel()):
-        corr.simulate(base_o, "orig", rng)
-        corr.simbinary(base_o, "orig", rng)
+    qt = "qt" in inp
+    if qt:
+        run.count("qt-with-edge-events" if any(len(e) > 8 and e[8] in ("W", "S", "SW") for e in inp["events"])
+                  else "qt-no-edge-events")
+        run.count(f"qt-adjacent-pairs:{'0' if not inp.get('adjacent') else '1+'}")
+
+    def sane(o, tag):
+        """the generator's expectations about a variant (documented tiles, every event inside a tile); returns whether
+        the count correspondence can be asked"""
+        if o.keys_ok is not True:
+            got, want = o.keys_ok
+            run.mismatch(dict(full, variant=tag, op="tiles"), got, want)
+            run.count("qt-tiles-differ")
+        if not o.located:
+            run.count("qt-event-outside-every-tile")
+        return o.located
+    if sane(base_o, "orig"):
+        corr.counts(base_o, "orig")
+        corr.mean(base_o, "orig")
+        corr.jointll(base_o, "orig", base)
+        corr.tw(base_o, "orig", base)
+        corr.binary(base_o, "orig", base)
+        corr.normll(base_o, "orig", base)
+        if qt:
+            corr.locate(base_o, "orig")
+        if any(v > 0 for v in base_o.d1.ravel()):
+            corr.simulate(base_o, "orig", rng)
+            corr.simbinary(base_o, "orig", rng)
     nvar = 0
+    ncalls = len(ALL)
+
+    def judge(kind, k, names, res, how=None):
+        nonlocal ncalls
+        ncalls += len(names)
+        for n in names:
+            why = _compare(n, "events" if kind == "inplace" else kind, base[n], res[n])
+            if why:
+                what = f"permuting the {kind}" if kind != "inplace" else f"re-ordering the observed events in place ({how})"
+                run.oracle_failure(dict(full, permuted=kind, perm_index=k, evaluation=n), f"{what}: {why}")
+                run.count(f"oracle-fail:{kind}:{n}")
 
     def variant(kind, k, names, **kw):
         nonlocal nvar
         o = _objects(inp, **kw)
         res = _evaluate(o, inp, names)
         nvar += 1
-        for n in names:
-            why = _compare(n, kind, base[n], res[n])
-            if why:
-                run.oracle_failure(dict(full, permuted=kind, perm_index=k, evaluation=n), f"permuting the {kind}: {why}")
-                run.count(f"oracle-fail:{kind}:{n}")
+        judge(kind, k, names, res)
         return o, res
     for k, p in enumerate(inp["ev_perms"]):
-        o, res = variant("events", k, ALL, ev_perm=p)
-        corr.counts(o, f"events{k}")
-        if k == 0:
-            corr.tw(o, f"events{k}", res)
+        # odd variants re-use the region and forecast OBJECTS of the base input (only the catalog objects are new)
+        o, res = variant("events", k, ALL, ev_perm=p, share=base_o if k % 2 else None)
+        run.count("events-variant:" + ("shared-region-and-forecasts" if k % 2 else "fresh-objects"))
+        if sane(o, f"events{k}"):
+            corr.counts(o, f"events{k}")
+            if qt and k >= 2:
+                corr.locate(o, f"events{k}")
+            if k == 0:
+                corr.tw(o, f"events{k}", res)
     for k, p in enumerate(inp["cat_perms"]):
-        o, res = variant("catalogs", k, CATALOG, cat_perm=p)
-        corr.mean(o, f"cats{k}")
+        o, res = variant("catalogs", k, CATALOG, cat_perm=p, share=base_o if k % 2 else None)
+        if sane(o, f"cats{k}"):
+            corr.mean(o, f"cats{k}")
     for k, p in enumerate(inp["cell_perms"]):
         o, res = variant("cells", k, ALL, cell_perm=p)
-        corr.counts(o, f"cells{k}")
-        corr.mean(o, f"cells{k}")
-        if k == 0:
-            corr.jointll(o, f"cells{k}", res)
-            corr.binary(o, f"cells{k}", res)
-            corr.normll(o, f"cells{k}", res)
+        if sane(o, f"cells{k}"):
+            corr.counts(o, f"cells{k}")
+            corr.mean(o, f"cells{k}")
+            if k == 0:
+                corr.jointll(o, f"cells{k}", res)
+                corr.binary(o, f"cells{k}", res)
+                corr.normll(o, f"cells{k}", res)
+    nvar += _inplace_session(run, inp, base_o, base, corr, judge)
     corr.finish()
     run.extra["variants_evaluated"] = run.extra.get("variants_evaluated", 0) + nvar + 1
     run.evaluations += nvar           # every permuted variant is an evaluation of the property's predicate
-    run.extra["evaluation_calls"] = run.extra.get("evaluation_calls", 0) + len(ALL) * (
-        1 + len(inp["ev_perms"]) + len(inp["cell_perms"])) + len(CATALOG) * len(inp["cat_perms"])
+    run.extra["evaluation_calls"] = run.extra.get("evaluation_calls", 0) + ncalls
+
+
+def _reorder_in_place(cat, how, perm, seed):
+    """re-order the stored rows of the catalog object `cat` WITHOUT making a new catalog object"""
+    if how == "slice-assign":
+        cat.catalog[:] = cat.catalog[numpy.array(perm, dtype=int)]
+    elif how == "setter":
+        cat.catalog = cat.catalog[numpy.array(perm, dtype=int)]
+    elif how == "sort-time":
+        cat.catalog.sort(order="origin_time")
+    elif how == "sort-magnitude":
+        cat.catalog.sort(order="magnitude")
+    elif how == "shuffle":
+        numpy.random.default_rng(seed).shuffle(cat.catalog)
+    else:
+        raise ValueError(how)
+
+
+def _inplace_session(run, inp, base_o, base, corr, judge):
+    """ONE observed-catalog object, ONE catalog-forecast object, the base region and forecast objects: every evaluation
+    is run, the stored rows are re-ordered in place, every evaluation is run again on the same objects, ... Each round
+    must give what the base input gave with fresh objects (seeded results bit for bit). Finally the synthetic catalogs
+    (the list and the rows of each) are re-ordered in place as well."""
+    cat, cf = base_o.mk_catalog(), base_o.mk_cf()
+    n = len(inp["events"])
+    ids = [str(e[0]) for e in inp["events"]]
+    o = SimpleNamespace(**vars(base_o))
+    o.mk_catalog, o.catalog = (lambda: cat), cat
+    # a pass over a CatalogForecast that ends in an exception leaves its cursor mid-pass (known finding D27 of property
+    # C13, not a storage-order matter): the forecast OBJECT is re-used only where no catalog-based evaluation raises
+    share_cf = not any("exc" in base[x] for x in CATALOG)
+    run.count("inplace:catalog-forecast-object-" + ("shared" if share_cf else "fresh (D27)"))
+    if share_cf:
+        o.mk_cf = lambda: cf
+    rounds = 0
+
+    def evaluate(k, how, names):
+        nonlocal rounds
+        res = _evaluate(o, inp, names)
+        rounds += 1
+        judge("inplace", k, names, res, how)
+        return res
+    evaluate(-1, "first use of the shared objects", ALL)
+    steps = inp.get("inplace") or [["slice-assign", 0], ["sort-time", 0]]
+    for k, (how, pidx) in enumerate(steps):
+        if n == 0:
+            break
+        perm = inp["ev_perms"][pidx % len(inp["ev_perms"])]
+        try:
+            _reorder_in_place(cat, how, perm, inp["seed"] + k)
+            now = [v.decode() if isinstance(v, bytes) else str(v) for v in cat.get_event_ids()]
+        except Exception as e:                    # numpy refusing the operation is not the property's business
+            run.count(f"inplace-unavailable:{how}:{type(e).__name__}")
+            break
+        if sorted(now) != sorted(ids):
+            raise AssertionError("harness: in-place re-ordering changed the set of events")
+        order = [ids.index(i) for i in now]
+        o.events = [inp["events"][i] for i in order]
+        o.ev_cells, o.ev_bins = [base_o.ev_cells[i] for i in order], [base_o.ev_bins[i] for i in order]
+        run.count(f"inplace:{how}" + (":order-unchanged" if order == list(range(n)) and k == 0 else ""))
+        evaluate(k, how, ALL if k == 0 else [x for x in ALL if x not in CATALOG_SEEDED])
+        if base_o.located:
+            corr.counts(o, f"events-inplace{k}", None, cat)
+            if "qt" in inp:
+                corr.locate(o, f"events-inplace{k}", cat)
+    # the synthetic catalogs, in place: the list of catalogs and the rows of every catalog
+    if share_cf and cf.catalogs and isinstance(cf.catalogs, list) and inp["cat_perms"]:
+        q = inp["cat_perms"][0]
+        cf.catalogs[:] = [cf.catalogs[i] for i in q]
+        for j, c in enumerate(cf.catalogs):
+            if c.event_count >= 2:
+                c.catalog[:] = c.catalog[::-1].copy()
+        res = _evaluate(o, inp, CATALOG)
+        rounds += 1
+        # the observed rows are permuted too by now, the synthetic catalogs re-ordered: multiset comparison
+        judge("catalogs", -1, CATALOG, res)
+        run.count("inplace:synthetic-catalogs")
+    return rounds
 
 
 def run(run, rng, tier):
@@ -690,7 +1094,9 @@ def run(run, rng, tier):
     import time
     import csep
     run.extra["csep_file"] = csep.__file__
-    run.assumptions.append("events lie strictly inside their cell and magnitude bin (lookup edge cases are C01/C02)")
+    run.assumptions.append("Cartesian regions: events lie strictly inside their cell and magnitude bin (lookup edge cases "
+                           "are C01/C02); quadtree regions: events inside tiles, exactly on tile edges and on tile corners "
+                           "(coordinates taken from mercantile's tile bounds), magnitudes strictly inside their bin")
     run.assumptions.append("binary/Brier simulations are not executed when active bins outnumber positive-rate bins (D10)")
     cdir = os.path.join(os.path.dirname(os.path.dirname(os.path.abspath(__file__))), "corpus", "C20")
     if os.path.isdir(cdir):
@@ -699,10 +1105,10 @@ def run(run, rng, tier):
                 payload = json.load(open(os.path.join(cdir, fn)))
                 check_input(run, payload["case"]["inp"] if "case" in payload else payload["inp"], rng, tag="corpus:" + fn)
     # every shape once, then random
-    shapes = ["single", "row", "col", "rect", "subset", "subset-large"]
+    shapes = ["single", "qt-single", "row", "qt-quadkeys", "col", "qt-catalog", "rect", "subset", "subset-large"]
     # fixed case counts (deterministic for a seed); the wall-clock budget is only a safety cap on slow machines
     budget = 100.0 if tier == "quick" else 900.0
-    ncases = 150 if tier == "quick" else 1000
+    ncases = 135 if tier == "quick" else 1000
     t0 = time.time()
     k = 0
     while k < ncases and (time.time() - t0 < budget or k < len(shapes)):
